@@ -21,9 +21,11 @@ func c03Gen(r *RNG, tier string) []json.RawMessage {
 	r = NewRNG(r.U64())
 	reg := registeredDecs()
 	// one case per (table, decoration): shards are evaluated in parallel
+	var curHooks []HookSpec
+	var curNest *NestSpec
 	add := func(t TableSpec, decs []DecSpec) {
 		for _, d := range decs {
-			out = append(out, mustJSON(TextSpec{Table: t, Decs: []DecSpec{d}}))
+			out = append(out, mustJSON(TextSpec{Table: t, Decs: []DecSpec{d}, Hooks: curHooks, Nest: curNest}))
 		}
 	}
 	withCustom := func(n int) []DecSpec {
@@ -82,8 +84,79 @@ func c03Gen(r *RNG, tier string) []json.RawMessage {
 			lateEnrich(r, &ts, widerText)
 		case r.Pct(30):
 			enrichSpec(r, &ts, textItem)
+		case r.Pct(15):
+			// render, same-size mutations of mutable items + Update, render again
+			mutateSameSize(&ts, 60, r)
+		}
+		curHooks, curNest = nil, nil
+		if r.Pct(15) {
+			curHooks = randHooks(r) // the application's own callbacks, some of them failing
+		}
+		if r.Pct(8) {
+			curNest = randNest(r) // another table rendered while this one is being written
 		}
 		add(ts, withCustom(nc))
+		curHooks, curNest = nil, nil
+	}
+	// a fixed grid in which every cell is the widest of its column or the
+	// tallest of its row somewhere: (a) under each kind of user callback
+	// registered before the Wrap, failing on every / every other / no call;
+	// (b) with another table rendered from inside the writer at each of the
+	// first write calls; (c) render, every text replaced by another of the same
+	// size (and only one of them), Update, render again
+	fixedGrid := func() TableSpec {
+		h := []ItemSpec{Str("head one"), Str("h"), Str("日本語")}
+		return TableSpec{Header: &h, Rows: []RowSpec{
+			{Cells: []ItemSpec{Str("a"), Str("tall\ncell\nhere"), Str("z")}},
+			{Sep: true},
+			{Cells: []ItemSpec{Str("b"), Str("the widest of column two")}, How: 1},
+			{Cells: []ItemSpec{Str("c\nd"), Str(""), Str("ＷＩＤＥ wide")}, How: 3},
+		}}
+	}
+	for when := 0; when < 4; when++ {
+		for target := 0; target < 3; target++ {
+			for pat := 0; pat < 4; pat++ {
+				if target != 1 && pat > 1 {
+					continue
+				}
+				h := HookSpec{When: when, Target: target, SetProp: pat%2 == 1}
+				switch pat {
+				case 0:
+					h.ErrMod = 1 // every call fails
+				case 1:
+					h.ErrMod, h.ErrRem = 2, 1
+				case 2:
+					h.ErrMod, h.ErrRem = 3, 0
+				}
+				curHooks = []HookSpec{h}
+				if pat == 2 {
+					curHooks = append(curHooks, HookSpec{When: 2, Target: 1, ErrMod: 2})
+				}
+				add(fixedGrid(), []DecSpec{reg[(when+target+pat)%len(reg)]})
+			}
+		}
+	}
+	curHooks = nil
+	for _, at := range []int{-1, 0, 1, 2, 3, 5} {
+		for _, cols := range []int{1, 3, 5} {
+			curNest = &NestSpec{At: at, Cols: cols, Wide: 1 + 7*cols}
+			add(fixedGrid(), []DecSpec{reg[(at+cols+6)%len(reg)]})
+		}
+	}
+	curNest = nil
+	{
+		ts := fixedGrid()
+		mutateSameSize(&ts, 100, nil)
+		add(ts, reg)
+		for k := 0; k < 6; k++ {
+			ts := fixedGrid()
+			mutateSameSize(&ts, 100, nil)
+			ts.Mutations = ts.Mutations[k%len(ts.Mutations) : k%len(ts.Mutations)+1]
+			if k%2 == 1 {
+				ts.Stages = []int{0, 3}
+			}
+			add(ts, []DecSpec{reg[k%len(reg)]})
+		}
 	}
 	// multi-step histories on one reused wrapper, systematically: a render of
 	// the whole grid, then wider content arrives without changing the shape
@@ -174,7 +247,8 @@ func init() {
 		Rule: "tables built through the public API (AddHeaders / AddRowItems / NewRow+Add+AddRow / NewRowSizedFor / AddSeparator), each rendered under every registered decoration " +
 			"(decoration.RegisteredDecorationNames, fields dumped by reflection at run time) and under random custom decorations (random subset of the 22 fields, then Populate; some from NoBox(), some left incomplete); " +
 			"every shape with header in {none,0,1,2 cells} and up to 2 rows over {separator,0,1,2 cells}; every atom of a hostile alphabet (ASCII, CJK, full-width, combining incl. leading, ZWSP, ZWJ, VS16, ZWJ emoji, flags, tab, CR, escapes, multi-line, trailing newlines, invalid UTF-8) in first/middle/last column of a fixed grid; random grids to 4x5; " +
-			"multi-step histories through ONE reused wrapper (TableSpec.BuildRender: renders at Stages, then shape-preserving changes - cells appended with Row.Add to ragged rows already attached, a second AddHeaders of the same count - then the judged render), systematically on a fixed grid and on a quarter of the random grids; early column properties, rows attached twice (enrichSpec); sizes beyond small thresholds: cells of 63..300 display cells (ASCII, double-width, mixed) next to short / empty / missing cells, cells of 17..130 lines, 17..130 columns, 33..130 rows; " +
+			"multi-step histories through ONE reused wrapper (TableSpec.BuildRenderW: renders at Stages, then shape-preserving changes - cells appended with Row.Add to ragged rows already attached, a second AddHeaders of the same count - then the judged render), systematically on a fixed grid and on a quarter of the random grids; early column properties, rows attached twice (enrichSpec); sizes beyond small thresholds: cells of 63..300 display cells (ASCII, double-width, mixed) next to short / empty / missing cells, cells of 17..130 lines, 17..130 columns, 33..130 rows; " +
+			"the application's own property callbacks (every time x target on the table, failing on every / every other / no call, some setting a property of their own) registered before the build and before texttable.Wrap - the output must not depend on them; another independent table rendered from inside the writer's Write while the judged render is writing (overlapping renders, sequentially); render, same-size mutations (same width on every line, same line count, different bytes) of mutable items + Update through CellAt, render again through the same wrapper; TableSpec.BuildRenderW with StageFaults / FinalVia / FaultAt / Scribble / PropOps via enrichSpec; " +
 			"the expected view is computed from the SPEC alone (TableSpec.SpecView: texts, per-line measured sizes, shape, properties), not read back from the table under test; " +
 			"a case (one table x its decorations) is non-trivial when the table has at least one column; distinct = distinct (oracle table, view, decorations, outcomes); " +
 			"the width oracle is length.StringCells of each text line and glyph; incomplete custom decorations and zero-column tables are outside the statement and only checked for model = implementation",
